@@ -13,8 +13,8 @@ grid ops (agents are 0..NAGENTS-1; `:` introduces the script of raw random draws
   empties | exists | isempty x y | mask | agents | iter | get x y | dump
   nbhd|inbhd x y MOORE IC R | nbrs|inbrs x y MOORE IC R | nmask x y MOORE IC R | clc|iclc K x1 y1 …
   hnbhd|ihnbhd x y IC R | hnbrs|ihnbrs x y IC R
-net ops
-  nplace a v | nremove a | nmove a v | nnbhd v IC R | nnbrs v IC R | nclc K v1 … | nagents | nisempty v | ndump
+net ops (node ids are naturals; a node id ≥ N does not exist)
+  nplace a v | nremove a | nmove a v | nnbhd v IC R | nnbrs v IC R | nclc|niclc K v1 … | nallc | nagents | nisempty v | ndump
 -/
 open Mesa.Legacy
 
@@ -157,6 +157,27 @@ def gridLine (g : Grid) (hex : Bool) (nag : Nat) (nc : NCache) (hc : HCache) (ws
     | _, _, _, _ => bad
   | _ => bad
 
+def netQuery (t : Net) (nag : Nat) (op : String) (args : List String) : St × String :=
+  let keep := St.net t nag
+  let bad : St × String := (keep, "bad-op")
+  match op, args with
+  | "nisempty", [v] =>
+    match v.toNat? with
+    | some v =>
+      match t.isCellEmpty v with
+      | .ok b => (keep, if b then "ok 1" else "ok 0")
+      | .error e => (keep, fmtErr e)
+    | _ => bad
+  | op, [v, ic, r] =>
+    match v.toNat?, bool? ic, r.toNat? with
+    | some v, some ic, some r =>
+      if v ≥ t.n then bad
+      else if op = "nnbhd" then (keep, sp (fmtIds (t.nbhd v ic r)))
+      else if op = "nnbrs" then (keep, sp (fmtIds (t.cellsContents (t.nbhd v ic r))))
+      else bad
+    | _, _, _ => bad
+  | _, _ => bad
+
 def netLine (t : Net) (nag : Nat) (ws : List String) : St × String :=
   let keep := St.net t nag
   let bad : St × String := (keep, "bad-op")
@@ -172,25 +193,21 @@ def netLine (t : Net) (nag : Nat) (ws : List String) : St × String :=
     | _ => bad
   | ["nmove", a, v] =>
     match a.toNat?, v.toNat? with
-    | some a, some v => if a < nag && v < t.n then upd (t.move a v) else bad
+    | some a, some v => if a < nag then upd (t.move a v) else bad
     | _, _ => bad
-  | "nclc" :: k :: rest =>
-    match k.toNat?, nats? rest with
-    | some k, some vs => if vs.length = k && vs.all (· < t.n) then (keep, sp (fmtIds (t.cellsContents vs))) else bad
-    | _, _ => bad
-  | [op, v, ic, r] =>
-    match v.toNat?, bool? ic, r.toNat? with
-    | some v, some ic, some r =>
-      if v ≥ t.n then bad
-      else if op = "nnbhd" then (keep, sp (fmtIds (t.nbhd v ic r)))
-      else if op = "nnbrs" then (keep, sp (fmtIds (t.cellsContents (t.nbhd v ic r))))
-      else bad
-    | _, _, _ => bad
-  | ["nagents"] => (keep, sp (fmtIds ((List.range t.n).flatMap t.content)))
-  | ["nisempty", v] =>
-    match v.toNat? with
-    | some v => if v < t.n then (keep, if (t.content v).isEmpty then "ok 1" else "ok 0") else bad
-    | _ => bad
+  | op :: k :: rest =>
+    if op = "nclc" || op = "niclc" then
+      match k.toNat?, nats? rest with
+      | some k, some vs =>
+        if vs.length = k then
+          match t.getCellListContents vs with
+          | .ok l => (keep, sp (fmtIds l))
+          | .error e => (keep, fmtErr e)
+        else bad
+      | _, _ => bad
+    else netQuery t nag op (k :: rest)
+  | ["nallc"] => (keep, sp (fmtIds t.getAllCellContents))
+  | ["nagents"] => (keep, sp (fmtIds t.agentsList))
   | ["ndump"] =>
     let ps := (List.range nag).map fun a => match t.pos a with | some v => toString v | none => "-"
     let cs := (List.range t.n).filterMap fun v => if (t.content v).isEmpty then none else some (toString v ++ "=" ++ fmtCell (t.content v))
